@@ -743,6 +743,7 @@ func init() {
 			types, extra := f(s, rng, thorough)
 			driveExtremes(s, rng, thorough)
 			driveWideFrames(s, rng, thorough)
+			driveBlind(s, rng, thorough)
 			return types, extra
 		}
 	}
@@ -750,5 +751,9 @@ func init() {
 	profileFns["appendsample"] = withExtremes(driveAppendSample)
 	profileFns["io"] = withExtremes(driveIO)
 	profileFns["channel"] = withExtremes(driveChannel)
-	profileFns["alloc"] = driveAlloc
+	profileFns["alloc"] = func(s *shardSet, rng *rand.Rand, thorough bool) ([]string, map[string]int) {
+		types, extra := driveAlloc(s, rng, thorough)
+		driveBlind(s, rng, thorough)
+		return types, extra
+	}
 }
